@@ -98,7 +98,7 @@ def named():
     add('try_handler_nested_fin', [A(0), ('try', [('pass',)], [(None, 1, [('for', [2], [], [('pass',)], []), A(3)])], [],
                                    [X(4)]), X(5)], ties=[[4, 5]])
     add('class_in_class', [A(0), ('class', 1, [], [], [], [A(2), ('class', 3, [], [], [], [X(4), A(5), X(6)])])],
-        'a class nested in a class body does not see the outer class body', ties=[[4, 6]])
+        'a class nested in a class body does not see the outer class body', ties=[[0, 2, 4, 6]])
     add('nonlocal_twice', [('def', 0, [], [], None,
                             [A(1), A(2), ('def', 3, [], [], None,
                                           [('nonlocal', [4]), ('nonlocal', [5]), A(6), X(7), A(8), X(9)]),
@@ -109,6 +109,25 @@ def named():
                                      ('call', 8), X(9)]), ('call', 10), X(11)],
         'global declared in a function nested in a function that has a local of the same name',
         ties=[[1, 10], [3, 8], [0, 2, 4, 5, 6, 7, 9, 11]])
+    for kind, stmt in (('while', ('while', [], [A(0)], [])), ('for', ('for', [0], [], [('pass',)], [])),
+                       ('if', ('if', [], [A(0)], [])), ('try', ('try', [A(0)], [(None, None, [('pass',)])], [], [])),
+                       ('with', ('with', [([], 0)], [('pass',)])),
+                       ('comp', ('expr', [('comp', 'list', [([0], [], [])], [])]))):
+        add('closure_after_' + kind, [stmt, A(1), ('def', 2, [], [], None, [X(3), X(4)]), ('call', 5)],
+            'bindings made after a compound statement are visible from a function defined later', ties=[[2, 5]])
+        add('closure_after_%s_in_def' % kind,
+            [('def', 6, [], [], None, [stmt, A(1), ('def', 2, [], [], None, [X(3), X(4)]), ('call', 5)]), ('call', 7)],
+            ties=[[2, 5], [6, 7]])
+    add('nested_loops_if', [A(0), ('for', [1], [], [('while', [], [('if', [], [X(2)], []), A(3)], []), A(4)], []), X(5)],
+        'inner loop with a nested branch inside an outer loop (tables memoised during nested back-edge resolution)',
+        ties=[[0, 2, 3, 4, 5]])
+    add('nested_loops_try', [('for', [0], [], [('for', [1], [], [('try', [X(2)], [(None, None, [A(3)])], [], []), A(4)], []),
+                                                X(5)], [])], ties=[[2, 5], [3, 4]])
+    add('assign_call_value', [A(0), ('assign', 'simple', [1], [('callx', [('r', 2), ('r', 3)])]), X(4)],
+        'the value of an assignment is a call with arguments that read the assigned name', ties=[[0, 1, 2, 4]])
+    add('ann_walrus_call_value', [A(0), ('assign', 'ann', [1], [('callx', [('r', 2), ('r', 3)])]),
+                                  ('if', [('w', 4, [('callx', [('r', 5), ('r', 6)])])], [X(7)], [])],
+        ties=[[0, 1, 2], [4, 5, 7], [3, 6]])
     add('comp_in_class', [('class', 0, [], [], [], [A(1), ('expr', [('comp', 'list', [([2], R(3), [])], R(4))])])])
     return S
 
